@@ -130,7 +130,7 @@ func decOf(s string) sdkmath.LegacyDec {
 
 // repeat: how many times a map-consuming function is called on the same input inside one process
 // (every call iterates in its own random order); the answers must agree.
-const repeat = 4
+const repeat = 8
 
 func (x *xworld) apply(op Op) (string, string) {
 	switch op.Kind {
@@ -320,8 +320,55 @@ func genStatus(run *emit.Run) Op {
 
 var e18 = new(big.Int).Exp(big.NewInt(10), big.NewInt(18), nil)
 
+// genNearTie: a CHAIN of near-ties — neighbouring total scores closer than 1e-6 (or 1e-9, 1e-12 ...) while the outer
+// ones are further apart — with the address order opposing the score order, plus one validator far away that
+// spans the normalisation range.  Any "equal within a tolerance" comparison is not transitive on such a chain, and
+// the result of sorting with it depends on the order in which the map hands out the entries.
+func genNearTie(run *emit.Run) Op {
+	r := run.Rng
+	n := 3 + r.Intn(4)
+	// step of the chain in units of 1e-18 relative to a span of 1.0: 6e-7 (seeded C08-D's tolerance is 1e-6), and other scales
+	step := []int64{600_000_000_000, 600_000_000_000, 400_000_000_000, 900_000_000_000, 600_000_000, 600_000, 6}[r.Intn(7)]
+	col := 1 + r.Intn(5) // which metric carries the chain
+	if col == 4 {
+		col = 1 // execution time is whole numbers
+	}
+	ro := &rankOp{}
+	ids := r.Perm(40)[:n+1]
+	sort.Ints(ids)
+	flat := []string{"0", e18.String(), new(big.Int).Div(e18, big.NewInt(2)).String()}[r.Intn(3)]
+	for k := 0; k <= n; k++ {
+		row := [6]string{fmt.Sprintf("%03d", ids[k]), flat, flat, flat, "0", flat}
+		v := new(big.Int).Add(e18, big.NewInt(step*int64(k)))
+		if k == n {
+			v = new(big.Int).Mul(e18, big.NewInt(2)) // spans the range: (v - min) / (max - min) = k * step
+		}
+		row[col] = v.String()
+		ro.Rows = append(ro.Rows, row)
+	}
+	// Address order must OPPOSE score order inside the chain.  ids ascend with k.  A "higher is better" metric ranks the
+	// chain n-1, ..., 0 by score and 0, ..., n-1 by address: opposed as it is.  The fee is "smaller is better": score
+	// order 0, ..., n-1, so the cheapest validator gets the largest address of the chain.
+	if col == 1 {
+		for k := 0; k < n/2; k++ {
+			ro.Rows[k][0], ro.Rows[n-1-k][0] = ro.Rows[n-1-k][0], ro.Rows[k][0]
+		}
+	}
+	r.Shuffle(len(ro.Rows), func(i, j int) { ro.Rows[i], ro.Rows[j] = ro.Rows[j], ro.Rows[i] })
+	for k := range ro.W {
+		ro.W[k] = e18.String()
+	}
+	if r.Intn(3) == 0 {
+		ro.W[col-1] = new(big.Int).Div(e18, big.NewInt(2)).String()
+	}
+	return Op{Kind: "rank", Rank: ro}
+}
+
 func genRank(run *emit.Run) Op {
 	r := run.Rng
+	if r.Intn(3) == 0 {
+		return genNearTie(run)
+	}
 	n := 1 + r.Intn(7)
 	ro := &rankOp{}
 	small := func() string { // tie-rich: few distinct values
@@ -400,8 +447,9 @@ func genScript(run *emit.Run, n int) []Op {
 	r := run.Rng
 	var s []Op
 	msgID := uint64(1 + r.Intn(50))
+	lnNext := r.Intn(1000) * 8
 	for i := 0; i < n; i++ {
-		switch k := r.Intn(20); {
+		switch k := r.Intn(23); {
 		case k < 6:
 			s = append(s, genStatus(run))
 		case k < 9:
@@ -415,8 +463,10 @@ func genScript(run *emit.Run, n int) []Op {
 		case k < 18:
 			msgID += uint64(1 + r.Intn(400))
 			s = append(s, Op{Kind: "purge", Purge: &purgeOp{Attest: true, Val: r.Intn(nVals), MessageID: msgID, Success: r.Intn(3) > 0}})
-		default:
+		case k < 20:
 			s = append(s, Op{Kind: "purge", Purge: &purgeOp{}})
+		default: // round 3: licence + registration of a light-node client (calendar arithmetic on the block time)
+			s = append(s, genLight(run, &lnNext)...)
 		}
 	}
 	return s
@@ -433,6 +483,13 @@ func corpusScripts() [][]Op {
 		// all-equal scores: the ranking is decided by the address tie-break alone
 		{{Kind: "rank", Rank: &rankOp{Rows: [][6]string{{"007", "5", "5", "5", "0", "5"}, {"003", "5", "5", "5", "0", "5"}, {"011", "5", "5", "5", "0", "5"}, {"001", "5", "5", "5", "0", "5"}},
 			W: [5]string{e18.String(), e18.String(), e18.String(), e18.String(), e18.String()}}}},
+		// seeded C08-D: relayer fees 1.0 / 1.0000006 / 1.0000012 and 2.0, all else equal, the cheapest validator has the
+		// largest address: a chain of near-ties (neighbours within 1e-6, the outer two not)
+		{{Kind: "rank", Rank: &rankOp{Rows: [][6]string{{"030", "1000000000000000000", "5", "5", "0", "5"}, {"020", "1000000600000000000", "5", "5", "0", "5"},
+			{"010", "1000001200000000000", "5", "5", "0", "5"}, {"040", "2000000000000000000", "5", "5", "0", "5"}},
+			W: [5]string{e18.String(), e18.String(), e18.String(), e18.String(), e18.String()}}}},
+		// seeded C08-C: month-end / DST / leap-day registrations of light-node clients
+		corpusLight(),
 	}
 }
 
@@ -545,6 +602,11 @@ func emitCases(run *emit.Run, script []Op, outs [][]stepOut, envs []twinEnv) {
 					continue
 				}
 				emitPurgeCase(run, script[:i], o, nontrivial)
+			case "lightnode":
+				if k != 0 {
+					continue
+				}
+				emitLightCase(run, script, i, o, nontrivial)
 			case "publish":
 				if k != 0 {
 					continue
